@@ -258,6 +258,13 @@ func genCase(t *rapid.T) Case {
 		m2 := "[" + body(t, ext, nil, 0) + "{{ s }}]"
 		layout := body(t, ext, nil, 0) + "{{ A() }}" + body(t, ext, nil, 0) + "{{ B(v1) }}" + "{{ B(\"lit<\") }}"
 		decls := "{% macro A %}" + m1 + "{% end %}{% macro B(s string) %}" + m2 + "{% end %}"
+		if ext == "md" {
+			// In Markdown the context of a show depends on how its line starts (four spaces or a
+			// tab open an indented code block, a fence opens a fenced one). Inlined after the
+			// declarations the first line of the layout would no longer start a line, so it is
+			// kept from starting with those characters: the two spellings stay equivalent.
+			layout = "x" + layout
+		}
 		return Case{Relation: "extends-inline", V: v, Note: ext,
 			A: map[string]string{"index." + ext: "{% extends \"layout." + ext + "\" %}" + decls, "layout." + ext: layout}, AName: "index." + ext,
 			B: map[string]string{"index." + ext: decls + layout}, BName: "index." + ext}
